@@ -48,6 +48,12 @@ CHECKS["C17"]=dict(engine="disco", design="5/C17", note=_disco_note,
 CHECKS["C20"]=dict(engine="disco", design="5/C20", note=_disco_note,
   text="Seeded search over probe-failure patterns x interleavings of Get calls, probe completions (parked at the transport), fake-clock advances, removals / re-additions of targets (also inside the retry wait and while a probe is in flight), reloads and lock order, against the real explorer with 1-8 workers; probe discipline is observed at the transport (none before Get, one in flight, none after success, no same-instant retry, one queued probe after removal), liveness after a quiet phase, and Get returns the successful probe's counts.")
 
+_world_note="Trusted: Prometheus, the Kubernetes API server + StatefulSet controller, the SD manager and the scrape targets are stubs (Prometheus stub uses the real config.Load and scrape.TargetsFromGroup on the real generated file); cmd wiring is replicated; the budget (140 fault-free cycles) and 'eligible' are the harness' definitions stated in the evidence."
+CHECKS["C03"]=dict(engine="world", design="5/C03", note=_world_note,
+  text="Closed-loop seeded search on the fake clock: the real coordinator (with real discovery, explorer, config manager and kubernetes shard managers) runs its cycles against real sidecars on real store directories that are scraped by Prometheus stubs; arbitrary initial placements (duplicates, pending and stuck transfers) and workloads (targets added/removed, growth, health flips, config edits) are followed by a quiet phase in which the end-state predicate (every eligible target on exactly one shard in normal state, nothing in_transfer, nothing oversized assigned, nothing undiscovered held) must be reached and stay unchanged; bounded liveness, evidence not proof.")
+CHECKS["C06"]=dict(engine="world", design="5/C06", note=_world_note,
+  text="The C03 closed loop with fault injection at the harness-owned boundaries (target update lost before/after taking effect, sidecar restart from its store, shard not ready / unreachable / failing GETs for a window, external scale change, configuration edit with late file rollout), placed at cycle boundaries and biased to cycles with in-flight transfers; after the faults stop the C03 end state must be reached within the budget: nothing stays in_transfer, duplicated or unscraped.")
+
 NOT_YET = {
 }
 
@@ -85,6 +91,7 @@ def main():
         "engines": [
             {"name": "cycle", "path": "sim/cycle", "serves_properties": [k for k, v in CHECKS.items() if v["engine"] == "cycle"], "kind_free_text": "one real coordination cycle against scripted sidecars under a PRNG-driven request scheduler"},
             {"name": "disco", "path": "sim/disco", "serves_properties": [k for k, v in CHECKS.items() if v["engine"] == "disco"], "kind_free_text": "real discovery + explorer + config callbacks under a yield-point scheduler (parks before every Lock()), sim-owned SD producer, forwarder and probe transport"},
+            {"name": "world", "path": "sim/world", "serves_properties": [k for k, v in CHECKS.items() if v["engine"] == "world"], "kind_free_text": "closed loop: real coordinator + discovery + explorer + k8s managers + N real sidecars, stubs for Prometheus / API server / targets, discrete-event loop on the synctest fake clock"},
             {"name": "k8s", "path": "sim/k8seng", "serves_properties": [k for k, v in CHECKS.items() if v["engine"] == "k8s"], "kind_free_text": "real kubernetes shard managers against a client-go fake clientset with error reactors"},
             {"name": "node", "path": "sim/node", "serves_properties": [k for k, v in CHECKS.items() if v["engine"] == "node"], "kind_free_text": "one real sidecar under drawn operation and fault sequences against a reference model; real net/http over net.Pipe for C13/C12"},
         ],
